@@ -270,6 +270,7 @@ class BMSMap(Map[BMSNoteList, BMSHitList, BMSHoldList, BMSBpmList], BMSMapMeta):
         ]
         hits = [[] for _ in range(MAX_KEYS)]
         holds = [[] for _ in range(MAX_KEYS)]
+        events = [[] for _ in range(MAX_KEYS)]
         time_sig = {}
 
         # The time_sig channel call does not sustain for more than 1 measure.
@@ -318,28 +319,28 @@ class BMSMap(Map[BMSNoteList, BMSHitList, BMSHoldList, BMSBpmList], BMSMapMeta):
                         )
                     elif channel in config.keys():
                         column = int(config[channel])
+                        # Lines may come in any order: objects are paired
+                        # with their LN tails only after sorting by position
+                        events[column].append((Snap(measure, beat, None), pair))
 
-                        if pair == self.ln_end_channel:
-                            try:
-                                # Yield LN Head from Hits
-                                prev_hit = hits[column].pop(-1)
-                                holds[column].append(
-                                    Hold(
-                                        hit=prev_hit,
-                                        sample=prev_hit.sample,
-                                        snap=Snap(measure, beat, None),
-                                    )
-                                )
-                            except IndexError:
-                                raise Exception(
-                                    f"Failed to match LN Tail on " f"Column {column}."
-                                )
-                        else:
-                            # Else it's a note
-                            sample = self.samples.get(pair, b"")
-                            hits[column].append(
-                                Hit(sample=sample, snap=Snap(measure, beat, None))
-                            )
+        for column, column_events in enumerate(events):
+            column_events.sort(key=lambda x: x[0])
+            for snap, pair in column_events:
+                if pair == self.ln_end_channel:
+                    try:
+                        # Yield LN Head from Hits
+                        prev_hit = hits[column].pop(-1)
+                        holds[column].append(
+                            Hold(hit=prev_hit, sample=prev_hit.sample, snap=snap)
+                        )
+                    except IndexError:
+                        raise Exception(
+                            f"Failed to match LN Tail on " f"Column {column}."
+                        )
+                else:
+                    # Else it's a note
+                    sample = self.samples.get(pair, b"")
+                    hits[column].append(Hit(sample=sample, snap=snap))
         #
         # measures = [*time_sig.keys(), -1]
         # for measure0, measure1 in zip(measures[:-1], measures[1:]):
